@@ -161,14 +161,19 @@ Step(c) ==
          IF c.exc # Nil THEN Pop(c)
          ELSE IF f.xs = <<>> THEN Pop(c)
          ELSE Push(Goto(c, "ct_done"), FrSC(f.n, f.xs))
-    [] f.pc = "ct_done" -> Pop(c)
+    [] f.pc = "ct_done" ->
+         Pop(c)
 
+\* the program points a run went through (vacuity control: the harness checks that the model exercises every one)
+AllPcs == {"sp_entry", "sp_pre_detach", "sp_do_detach", "sp_post_detach", "sp_pre_attach", "sp_do_attach", "sp_post_attach",
+           "dc_entry", "dc_loop", "dc_post", "sc_entry", "sc_after_del", "sc_loop", "sc_post", "sc_handler", "sc_reraise",
+           "ct_entry", "ct_children", "ct_done"}
 RECURSIVE Run(_)
-Run(c) == IF c.stk = <<>> THEN c ELSE Run(Step(c))
+Run(c) == IF c.stk = <<>> THEN c ELSE Run([Step(c) EXCEPT !.pcs = c.pcs \cup {Top(c).pc}])
 
 Begin(par, ch, fr, fp, strict, asrt) ==
   [par |-> par, ch |-> ch, stk |-> <<fr>>, exc |-> Nil, src |-> 0, log |-> <<>>, hc |-> 0,
-   fp |-> fp, marks |-> {}, par0 |-> par, strict |-> strict, asrt |-> asrt]
+   fp |-> fp, marks |-> {}, par0 |-> par, strict |-> strict, asrt |-> asrt, pcs |-> {}]
 
 (***************************************************************************)
 (* Forest well-formedness (property C01), on explicit arguments.           *)
